@@ -72,7 +72,8 @@ proof! {
 }
 
 macro_rules! transient_ctor {
-    ($name:ident, $t:ident, $tyname:expr) => {
+    ($name:ident, $t:ident, $tyname:expr) => { transient_ctor!($name, $t, $tyname, T, "T"); };
+    ($name:ident, $t:ident, $tyname:expr, $ctor:ident, $ctorname:expr) => {
         proof! {
             fn $name() unwind(6) {
                 // decoding the index of the transient constructor is the dedicated error
@@ -86,7 +87,7 @@ macro_rules! transient_ctor {
                     Err(e) => {
                         let ok = match &e {
                             Error::DeserializingTransientConstructor { constructor_name, type_name } =>
-                                constructor_name.as_bytes() == b"T" && type_name.as_bytes() == $tyname.as_bytes(),
+                                constructor_name.as_bytes() == $ctorname.as_bytes() && type_name.as_bytes() == $tyname.as_bytes(),
                             _ => false,
                         };
                         assert!(ok, "wrong error for a transient constructor index");
@@ -94,13 +95,13 @@ macro_rules! transient_ctor {
                     }
                 }
                 // encoding a value of the transient constructor is the dedicated error, no bytes
-                let v = $t::T(sym::u16_());
+                let v = $t::$ctor(sym::u16_());
                 match desert_core::serialize_to_byte_vec(&v) {
                     Ok(out) => { std::mem::forget(out); assert!(false, "a transient constructor was encoded"); }
                     Err(e) => {
                         let ok = match &e {
                             Error::SerializingTransientConstructor { constructor_name, type_name } =>
-                                constructor_name.as_bytes() == b"T" && type_name.as_bytes() == $tyname.as_bytes(),
+                                constructor_name.as_bytes() == $ctorname.as_bytes() && type_name.as_bytes() == $tyname.as_bytes(),
                             _ => false,
                         };
                         assert!(ok, "wrong error for encoding a transient constructor");
@@ -118,6 +119,8 @@ transient_ctor!(c14_transient_ctor_first, ETf, "ETf");
 transient_ctor!(c14_transient_ctor_mid, ETm, "ETm");
 //@ props=C13,C14,C17 tier=thorough bounds=transient-constructor-last
 transient_ctor!(c14_transient_ctor_last, ETl, "ETl");
+//@ props=C13,C14 tier=quick bounds=sorted-constructors:transient-constructor-declared-first,sorted-last
+transient_ctor!(c14_transient_ctor_sorted, EST, "EST", Zeta, "Zeta");
 
 proof! {
     //@ props=C14 tier=quick bounds=TrMid,TrFirst:two-values-differing-only-in-the-transient-field
